@@ -187,7 +187,7 @@ def m_int(interp, args, kw):
 
 def m_bool(interp, args, kw):
     (v,) = args
-    t = truth(v)
+    t = interp.truth(v)
     return t if isinstance(t, bool) else SV(t, "bool")
 
 
@@ -255,9 +255,74 @@ def m_np_abs(interp, args, kw):
     return m_abs(interp, args, kw)
 
 
+SIGMA = z3.Function("sigma_", z3.ArraySort(z3.IntSort(), R), z3.IntSort(), R)   # sigma_(a, n) = sum_{i<n} a[i]
+_bound_n = [0]
+
+
+def sigma_of(seq, interp=None, path=None):
+    """z3 term for the sum of a SymSeq: sigma_(Lambda i. elem(i), len)."""
+    _bound_n[0] += 1
+    i = z3.Int("i!b%d" % _bound_n[0])
+    p = path if path is not None else interp.path
+    old = getattr(p, "no_branch", False)
+    p.no_branch = True
+    try:
+        v = seq.elem(i)
+    finally:
+        p.no_branch = old
+    return SIGMA(z3.Lambda([i], as_real(v)), seq.len_term())
+
+
+def sigma_unfold(arr, k):
+    """definitional axioms of sigma_ instantiated at k: sigma(a,0)=0, sigma(a,k+1)=sigma(a,k)+a[k]."""
+    return [SIGMA(arr, 0) == 0, SIGMA(arr, k + 1) == SIGMA(arr, k) + arr[k]]
+
+
+class PrefixSum:
+    """Spec function F(k) = sum_{i<k} summand(i), given by its defining recurrence (quantifier-free:
+    the recurrence is instantiated where a loop rule / sum rule needs it)."""
+
+    def __init__(self, name, summand, *extra_sorts):
+        self.f = z3.Function(name, z3.IntSort(), R)
+        self.summand = summand
+
+    def at(self, k):
+        return self.f(k if not isinstance(k, int) else z3.IntVal(k))
+
+    def defs(self, k):
+        return [self.f(z3.IntVal(0)) == 0, self.f(k + 1) == self.f(k) + self.summand(k)]
+
+
 def m_sum(interp, args, kw):
     xs = args[0]
     start = args[1] if len(args) > 1 else 0
+    if isinstance(xs, SymSeq):
+        spec = None
+        site = getattr(interp, "call_site", None)
+        if site is not None:
+            spec = interp.sum_specs.get(site)
+        if spec is None:
+            t = sigma_of(xs, interp)
+            return SV(t + as_real(start), "real")
+        # sum rule (induction over the prefix): summand(k) == F(k+1) - F(k) for an arbitrary k, F(0) == 0
+        ps = spec(interp.call_env.locals)
+        path = interp.path
+        n = xs.len_term()
+        k = path.fresh("ksum", "int")
+        path.assume(z3.And(k.t >= 0, k.t < n))
+        if xs.facts is not None:
+            for f in xs.facts(k.t):
+                path.assume(f)
+        old = getattr(path, "no_branch", False)
+        path.no_branch = True
+        try:
+            v = xs.elem(k.t)
+        finally:
+            path.no_branch = old
+        for ax in ps.defs(k.t):
+            path.assume(ax)
+        path.oblige("sum@%s:%d_summand_matches_spec" % site, as_real(v) == ps.summand(k.t), kind="inv")
+        return SV(ps.at(n) + as_real(start), "real")
     acc = start
     for x in interp.iterate(xs):
         acc = interp.binop(ast.Add, acc, x)
